@@ -498,6 +498,27 @@ def check_parities(ctx):
     ctx.check(ok, R6, fi.key + ":result", "Parities(values, correlations)", "the tallies are not returned as Parities(values, correlations)", fi)
 
 
+def check_parity_arguments(ctx):
+    """The parity of a *product* of two terms is the XOR of the two terms' parities: qubits both terms act on cancel. A caller that asks
+    check_parity_of_vector for the parity on several terms' qubits at once (concatenated, or their union) gets that only if shared
+    qubits are counted twice -- which is a property of the helper's column selection, not of the call; only the symmetric difference of
+    the supports is right by itself. Absence rule: silent on calls whose qubit argument mentions at most one term's `.qubits`."""
+    repo = ctx.repo
+    n = 0
+    for key in (f"{PA}:get_parities_from_measurements", f"{MS}:Measurements.get_expectation_values", f"{MS}:get_expectation_value_from_frequencies"):
+        fi = repo.func(key)
+        ctx.analysed(fi)
+        for c in body_walk(fi.node):
+            if isinstance(c, ast.Call) and (dotted(c.func) or "").split(".")[-1] == "check_parity_of_vector" and len(c.args) >= 2:
+                n += 1
+                a = c.args[1]
+                supports = {norm(x) for x in ast.walk(a) if isinstance(x, ast.Attribute) and x.attr == "qubits"}
+                symdiff = (isinstance(a, ast.BinOp) and isinstance(a.op, ast.BitXor)) or any(isinstance(x, ast.Call) and isinstance(x.func, ast.Attribute) and x.func.attr == "symmetric_difference" for x in ast.walk(a))
+                if len(supports) >= 2 and not symdiff:
+                    ctx.violation(R6, f"{fi.key}:parity-of-several-supports", f"`{short(c, 100)}` asks for one parity over the qubits of several terms ({', '.join(sorted(supports))}) put together: qubits the terms share must cancel (Z*Z = I), which a concatenation or union of the supports does not express -- for overlapping terms the pair tallies count the parity of the union of the qubits instead of the product's", f"{fi.module.relpath}:{c.lineno}")
+    ctx.ok(R6, "artefacts:parity-arguments", f"{n} check_parity_of_vector call(s) examined: each asks for the parity on one term's own qubits (or a symmetric difference)", "")
+
+
 def check_purity(ctx):
     from .c20 import effects_for, mutation_obligations
 
@@ -569,6 +590,7 @@ def run(ctx):
     check_frequencies(ctx)
     check_counts(ctx)
     check_parities(ctx)
+    check_parity_arguments(ctx)
     check_purity(ctx)
     ctx.floor("C10-D1", 6)
     ctx.floor("C10-D2", 4)
